@@ -36,6 +36,8 @@ def tasks(tier):
     out.append(("vmdk", dict(kind="kdmv", grain_size=128, ngte=512, n_grains=1, tail=True)))
     out.append(("vhdx", dict(block_size=MB, sector_size=4096, max_count=1 if tier == "quick" else 2, prime=True,
                              prime_count=1 if tier == "quick" else 2)))
+    out.append(("vhdx", dict(block_size=MB, sector_size=4096, max_count=1, prime=True, prime_count=1, has_parent=True,
+                             force_partial=True, prime_same=True)))
     out.append(("qcow2", dict(cluster_bits=16, n_clusters=1, max_len=512 if tier == "quick" else 1024, prime=True,
                               prime_len=512)))
     return out
